@@ -209,3 +209,5 @@ pub assume_specification<P: core::str::pattern::Pattern>[ str::starts_with::<P> 
 pub assume_specification<P: core::str::pattern::Pattern>[ str::ends_with::<P> ](s: &str, p: P) -> (r: bool) where for<'b> P::Searcher<'b>: core::str::pattern::ReverseSearcher<'b>;
 #[verifier::allow(undeclared_external_trait)]
 pub assume_specification<P: core::str::pattern::Pattern>[ str::contains::<P> ](s: &str, p: P) -> (r: bool);
+pub assume_specification[ std::thread::panicking ]() -> (r: bool);
+pub assume_specification[ usize::leading_zeros ](x: usize) -> (r: u32) ensures r <= 64;
